@@ -154,7 +154,7 @@ PROPS = {
              rnd("both", "core", 1000, 60, hashmode=1, boost="peekmut:2,getmut:5,get:3,chg:3,chgby:3"),
              rnd("both", "iter", 1500, 50, exclude=NOT_ITERMUT),
              rnd("both", "bulk", 1000, 50, exclude="serde,deser,eq,extend,fromiter"),
-             pygen("boundary_items", 8)],
+             pygen("boundary_items", 10)],
             [rnd("both", "all", 30000, 80, exclude="extend,fromiter"), pygen("boundary_items", 11)]),
     ),
     "C13": dict(
